@@ -512,9 +512,10 @@ func c12GenElem(t *rapid.T, fd protoreflect.FieldDescriptor, depth int, g c12Gen
 	if fd.Kind() != protoreflect.MessageKind {
 		return c12GenScalar(t, fd)
 	}
-	// present sub-message at level depth+1 (the caller guarantees depth < maxDepth):
-	// empty (for a wrapper: holding zero) or populated
-	if rapid.IntRange(0, 3).Draw(t, "shape") == 0 {
+	// present sub-message at level depth+1: empty (for a wrapper: holding zero) or
+	// populated; at the depth bound only present-but-empty ones (the placeholders a runtime
+	// sends) are left
+	if depth >= g.maxDepth || rapid.IntRange(0, 3).Draw(t, "shape") == 0 {
 		return C12Val{M: &C12Msg{}}
 	}
 	m := c12GenMsg(t, fd.Message(), depth+1, g)
@@ -581,8 +582,8 @@ func c12GenMsg(t *rapid.T, md protoreflect.MessageDescriptor, depth int, g c12Ge
 			continue
 		}
 		isMsg := fd.Kind() == protoreflect.MessageKind || (fd.IsMap() && fd.MapValue().Kind() == protoreflect.MessageKind)
-		if isMsg && depth >= g.maxDepth {
-			continue // depth bound: no sub-messages below maxDepth
+		if isMsg && depth >= g.maxDepth && c12Gen8.Draw(t, "placeholder") < 4 {
+			continue // depth bound: below maxDepth sub-messages are absent or present-but-empty
 		}
 		out.F = append(out.F, c12GenField(t, fd, depth, g))
 	}
